@@ -229,6 +229,12 @@ func (c *contentValidator) ValidatePermissionChange(ch *aclrecordproto.AclAccoun
 		return ErrNoSuchAccount
 	}
 
+	if currentState.Permissions.NoPermissions() {
+		// an account without permissions (pending, declined, canceled or removed) is not a member: it has to be
+		// admitted through a path that delivers the read key (request accept, invite join or accounts add)
+		return ErrInsufficientPermissions
+	}
+
 	if currentState.Permissions == AclPermissionsGuest {
 		// it shouldn't be possible to change permission of guest user
 		// it should be only possible to remove it with AccountRemove acl change
